@@ -186,6 +186,29 @@ def test_D31_array_of_decimal_strings_rounds_like_a_list():
     assert x.val.tolist() == [3, 3] and x.status['inaccuracy']
 
 
+def test_D32_numpy_functions_on_subclass_instances_keep_the_format():
+    class S(Fxp):
+        pass
+    z = np.add(S([1, -3], True, 8, 2, raw=True), S([1, 3], False, 6, 1, raw=True))
+    assert z.dtype == 'fxp-s9/2' and z.val.tolist() == [3, 3]
+
+
+def test_D33_float_elements_next_to_a_huge_one_are_rounded_by_mode():
+    assert Fxp([1e30, 0.75, 1.5, -0.75], True, 8, 0, rounding='around').val.tolist() == [127, 1, 2, -1]
+    assert Fxp([0.75, 1.5, -0.75], True, 64, 0, rounding='around').val.tolist() == [1, 2, -1]
+    assert int(Fxp(-1e300, True, 31, 31).val) == -2 ** 30          # scaled value overflows to infinity: still saturates
+
+
+def test_D34_uraw_of_signed_63_bit_words():
+    assert Fxp(np.array([-(1 << 62), -1]), True, 63, 0, raw=True).uraw().tolist() == [1 << 62, (1 << 63) - 1]
+
+
+def test_D35_hex_with_a_configured_binary_prefix():
+    x = Fxp([-3, 5], True, 8, 2, raw=True)
+    x.config.bin_prefix = 'b'
+    assert x.hex() == ['0xFD', '0x05'] and x.bin() == ['b11111101', 'b00000101']
+
+
 @pytest.mark.xfail(reason='D12: known finding, see /verif/known_findings.json', strict=True)
 def test_D12_product_over_53_bits_narrowed_under_wrap():
     x = Fxp(-2 ** 63, True, 64, 32, raw=True, overflow='wrap', op_sizing='same')
